@@ -53,6 +53,48 @@ def failed_dump(sym, fmt, position, attr, rule, maxlen, k, preexisting, any_valu
         sym.check("no-file-created", after is None)
 
 
+def nonfinite_unvalidated(sym, where, value):
+    """fields that no validator looks at (sizes of extra files, checksum values, path tables, the rpms / modules tables) may hold a
+    number no strict JSON writer accepts: whether the library writes it or refuses it, a refusal leaves the destination alone"""
+    from productmd.extra_files import ExtraFiles
+    from productmd.rpms import Rpms
+    from productmd.modules import Modules
+    x = {"inf": float("inf"), "-inf": float("-inf"), "nan": float("nan")}[value]
+    if where == "extra-size":
+        top = C06.base_compose_only(ExtraFiles)
+        top.add("Server", "x86_64", "Server/x86_64/os/GPL", 7, {"md5": "abc"})
+        poke = lambda: top.add("Server", "x86_64", "Server/x86_64/os/EULA", x, {"md5": "def"})
+    elif where == "image-checksum":
+        top, imgs = C06.base_images(0)
+        poke = lambda: imgs[1].checksums.__setitem__("crc", x)
+    elif where == "variant-path":
+        top, objs = C06.base_composeinfo(0)
+        poke = lambda: objs["Client"].paths.os_tree.__setitem__("x86_64", x)
+    elif where == "rpms-entry":
+        top = C06.base_compose_only(Rpms)
+        top.add("Server", "x86_64", "glibc-0:2.18-11.fc20.x86_64", "Server/x86_64/os/g/glibc.rpm", None, "binary", "glibc-0:2.18-11.fc20.src.rpm")
+        poke = lambda: top.rpms["Server"]["x86_64"]["glibc-0:2.18-11.fc20.src"]["glibc-0:2.18-11.fc20.x86_64"].__setitem__("size", x)
+    else:
+        top = C06.base_compose_only(Modules)
+        top.add("Server", "x86_64", "ruby:2.5:20180123:c0ffee", "tag-1", "Server/x86_64/os/repodata/m.yaml", "binary", ["ruby-0:2.5-1.x86_64"])
+        poke = lambda: top.modules["Server"]["x86_64"]["ruby:2.5:20180123:c0ffee"]["metadata"].__setitem__("weight", x)
+    d = sym.scratch_dir()
+    path = os.path.join(d, "metadata.out")
+    top.dump(path)
+    before = read_bytes(path)
+    poke()
+    sym.cover("corrupted")
+    try:
+        top.dump(path)
+        raised = False
+    except (ValueError, TypeError):
+        raised = True
+    if not raised:
+        return
+    sym.cover("dump-failed")
+    sym.check("previous-file-intact", read_bytes(path) == before)
+
+
 def jobs(tier, seed):
     big = tier == "thorough"
     out = []
@@ -77,6 +119,10 @@ def jobs(tier, seed):
     add_any("treeinfo", "tree", C06.TREE_FIELDS)
     add_any("treeinfo", "media", C06.TREE_MEDIA_FIELDS)
     add_any("treeinfo", "v:Server", C06.TREE_VARIANT_FIELDS)
+    for wi, where in enumerate(("extra-size", "image-checksum", "variant-path", "rpms-entry", "modules-entry")):
+        for vi, value in enumerate(("inf", "-inf", "nan")):
+            if big or (wi + vi + seed) % 2 == 0:
+                out.append({"harness": "nonfinite_unvalidated", "params": {"where": where, "value": value}})
     add("composeinfo", "compose", C06.COMPOSE_FIELDS)
     add("composeinfo", "release", C06.RELEASE_FIELDS)
     add("composeinfo", "base_product", C06.BP_FIELDS)
@@ -99,7 +145,7 @@ def jobs(tier, seed):
 
 
 META = {
-    "expected_covers": {"failed_dump": ["corrupted", "dump-failed"]},
+    "expected_covers": {"failed_dump": ["corrupted", "dump-failed"], "nonfinite_unvalidated": ["corrupted"]},
     "assumptions": [
         "the destination is a real file in a scratch directory outside /repo and /verif; open/read/exists are the real system calls; in a third of the jobs "
         "the existing destination has a second hard link (as compose tooling creates them)",
